@@ -109,6 +109,19 @@ mut("C17", "threads-list-shared-between-managers", IO,
     "    self._threads = []\n",
     "    self._threads = globals().setdefault('_ALL_THREADS', [])\n")
 
+# a read-modify-write inside ONE source line, outside the manager lock: only
+# a switch between two bytecode instructions of that line shows it (found
+# through the "opcodes" pre-emption granularity of engine A)
+mut("C17", "threads-list-rewritten-in-one-line-without-lock", IO,
+    "    with self.lock:\n      self._threads.remove(thread)\n"
+    "      self._exiting = [th for th in self._exiting if th.is_alive()]\n"
+    "      self._exiting.append(thread)\n",
+    "    with self.lock:\n"
+    "      self._exiting = [th for th in self._exiting if th.is_alive()]\n"
+    "      self._exiting.append(thread)\n"
+    "    self._threads = self._threads[:self._threads.index(thread)] + "
+    "self._threads[self._threads.index(thread) + 1:]\n")
+
 # ---- C15
 mut("C15", "no-dedupe", CO,
     "      if k not in key_list:\n        key_list.append(k)",
